@@ -34,7 +34,7 @@ func init() {
 		ID: "C19", Level: "exploration",
 		Rule: "case = one path text evaluated on 2-4 messages of its root type, or one byte rendering. Families: " +
 			"(grammar) a structured path drawn by walking a random message (descriptor-driven: testprotopath.Test with all six map key kinds, Test.Nested, VMGoldenMeasurement, VMLaunchEndorsement; nesting <= 5, up to 8 field steps; indices of present and of missing elements) " +
-			"and spelled at random (implicit/explicit root, decimal/hex/octal and negative integers, both quote styles, simple/\\x/octal/\\u/\\U escapes, raw UTF-8), evaluated on the message it was drawn from, a fresh random message, the empty message and a copy with the addressed element deleted; " +
+			"and spelled at random (implicit/explicit root, decimal/hex/octal and negative integers, both quote styles, simple, 1-3 digit octal incl. leading zeros, 1-2 digit \\x/\\X in either case, \\u, \\U escapes, escapes followed by literal digits, raw UTF-8; string-keyed maps hold keys together with what a short-cutting scanner would read instead), evaluated on the message it was drawn from, a fresh random message, the empty message and a copy with the addressed element deleted; " +
 			"(neighbour) the same with one type-breaking edit of the structure (index dropped/added, literal of the wrong kind or out of the key range, map-entry field, unknown/foreign field, negative/huge index); " +
 			"(soup) token soups, random bytes, mutated valid texts and long inputs - whatever parses is evaluated and compared with a typed walk of the returned protopath; " +
 			"(render) InspectPayload/InspectSignature/InspectMask, MaskOptions.Mask and the CLI 'inspect payload|signature|mask' (in-process, in-memory IO) for bin/hex/base64/auto(terminal and not) over byte strings of boundary lengths, plus sequences of 3-6 such calls on ONE *Inspect (in one context) or *MaskOptions whose writer the caller swaps between terminal and non-terminal (every step judged like a single call; the options' Form must be unchanged afterwards). " +
@@ -44,7 +44,7 @@ func init() {
 		Assumptions: []string{
 			"a parse error is never judged (C19: 'parsing either fails with an error or ...'); floors require that every spelling feature and every map key kind was seen to parse and evaluate to the walked value, so a parser that rejects a whole class makes the run inconclusive instead of passing",
 			"an unset singular message field is not absent (protobuf reflection reads it as the empty message); only missing list indices and map keys are absent",
-			"\\x and octal escapes are only generated for ASCII (above 0x7f the text format reads them as bytes, the scanner as code points: not judged)",
+			"string escapes follow the grammar scan.go documents and its tests pin down: octal = 1 to 3 digits, as many as are there; \\x/\\X = 1 or 2 hex digits, as many as are there; every numeric escape composes one rune (so \\377 is U+00FF; generated up to 0xff only); each generated literal is first read back by an independent unescaper (pathref.Unescape) and replaced by a plain \\U spelling if that disagrees (counted as GENERATOR-FALLBACK, expected 0)",
 			"hex output is accepted in either case, base64 must use the standard alphabet with padding (README: 'encoded as hex or base64'); BytesHexGuidify is not reachable from --bytesform and is not judged",
 			"C19 states no time bound: CPU time per call is evidence (maxima), only a 200 s backstop decides (non-termination); allocation is bounded per call as in C07; the worker runs under ulimit -v 6 GiB so that runaway allocation ends the child, not the host",
 			"CLI paths contain no comma or quote (cobra's --path is a CSV string slice); the CLI is driven in-process through the verif backend hook with in-memory IO",
@@ -347,7 +347,7 @@ func spellingFeatures(sp *pathref.Spelling) []string {
 }
 
 var wantSpellings = []string{"root:explicit", "root:implicit", "key-int:dec", "key-int:hex", "key-int:oct", "list-index:dec", "list-index:hex", "list-index:oct", "int:negative", "quote:dq", "quote:sq",
-	"escape:simple", "escape:hex", "escape:oct", "escape:u4", "escape:u8", "escape:raw-utf8"}
+	"escape:simple", "escape:oct1", "escape:oct2", "escape:oct3", "escape:oct-leading-zero", "escape:hex1", "escape:hex2", "escape:then-literal-digit", "escape:u4", "escape:u8", "escape:raw-utf8"}
 var wantKeyKinds = []string{"Mstring", "Mbool", "Mint32", "Mint64", "Muint32", "Muint64"}
 
 // grammar: a well-typed structured path, spelled at random, on four messages.
